@@ -223,10 +223,35 @@ def split_bc(text):
     return hdr, out
 
 
+# The move and budget-check templates are stated (X86Mov.v) with rax as their scratch register.  The code
+# generator has two interchangeable scratch registers, rax and rcx: neither ever holds a bytecode temporary,
+# both are caller-saved and clobbered by every runtime call, and the templates contain no instruction with an
+# implicit rax/rcx operand (checked here by a whitelist of mnemonics).  A template that uses rcx where the
+# model says rax is therefore translated after exchanging the two names consistently.  (Trusted step of the
+# translator; recorded in the evidence of C03/C07.)
+_SWAP_OK = {"lea", "sub", "add", "sar", "cmp", "jb", "mov", "movabs", "push", "pop", "call", "dec", "inc"}
+_SWAP = {"rax": "rcx", "rcx": "rax", "eax": "ecx", "ecx": "eax", "ax": "cx", "cx": "ax", "al": "cl", "cl": "al"}
+
+
+def canon_scratch(ins, probe_re):
+    """if the first instruction matching `probe_re` names rcx, exchange rax and rcx in the whole template"""
+    first = next((t for t in ins if re.search(probe_re, t)), None)
+    if first is None or not re.search(r"\brcx\b", first) or re.search(r"\brax\b", first):
+        return ins
+    out = []
+    for t in ins:
+        mn = t.strip().split()[0] if t.strip() else ""
+        if mn not in _SWAP_OK or (mn == "sar" and re.search(r",\s*cl\b", t)):
+            raise Unsupported("scratch registers exchanged in a template with %r" % t.strip())
+        out.append(re.sub(r"\b(rax|rcx|eax|ecx|ax|cx|al|cl)\b", lambda m: _SWAP[m.group(1)], t))
+    return out
+
+
 def translate_mov(ins, w, length):
     """the pointer-move template -> X86Mov.v syntax; `length`: size of the chunk in bytes (the jb
     must jump to its end)"""
     out = []
+    ins = canon_scratch(ins, r"^\s*lea\s+r[ac]x,")
     for text in ins:
         text = text.strip()
         m = re.match(r"^(\w+)\s*(.*)$", text)
@@ -286,6 +311,7 @@ def translate_mov(ins, w, length):
 def translate_limit(ins, start, term):
     """the limited-mode budget check -> X86Mov.v (lins) syntax"""
     out = []
+    ins = canon_scratch(ins, r"^\s*mov\s+r[ac]x,\s*QWORD PTR \[rbx\+0x18\]")
     for text in ins:
         t = re.sub(r"\s+", " ", text.strip())
         if t == "mov rax,QWORD PTR [rbx+0x18]":
@@ -310,20 +336,23 @@ CALLEE_SAVED = ["rbp", "rbx", "r12", "r13", "r14", "r15"]
 
 def frame_of(prologue, epilogue, term_rel):
     """prologue / epilogue instruction lists -> (pushes, sub_bytes); raises Unsupported unless they
-    are: push the six callee-saved registers, reserve the frame, take cxt and tape pointer from
+    are: push the six callee-saved registers (any order), reserve the frame, take cxt and tape pointer from
     rdi/rsi — and: return 1, or (termination path, at `term_rel`) return 0, release the frame, pop
     in reverse order, ret"""
     norm = lambda t: re.sub(r"\s+", " ", t.strip())
     pro = [norm(t) for t in prologue]
     epi = [norm(t) for t in epilogue]
     n = len(CALLEE_SAVED)
-    if pro[:n] != ["push " + r for r in CALLEE_SAVED]:
+    # the six callee-saved registers, each once, in any order; the epilogue must pop them in the reverse of
+    # *that* order (the order itself is not observable)
+    pushed = [t[5:] for t in pro[:n] if t.startswith("push ")]
+    if len(pushed) != n or sorted(pushed) != sorted(CALLEE_SAVED):
         raise Unsupported("prologue pushes: " + " ; ".join(pro))
     m = re.match(r"^sub rsp,(0x[0-9a-f]+|\d+)$", pro[n]) if len(pro) > n else None
     if not m or pro[n + 1:] != ["mov rbx,rdi", "mov rbp,rsi"]:
         raise Unsupported("prologue: " + " ; ".join(pro))
     sub = num(m.group(1))
-    want = ["mov eax,0x1", None, "mov eax,0x0", "add rsp,%s" % hex(sub)] + ["pop " + r for r in reversed(CALLEE_SAVED)] + ["ret"]
+    want = ["mov eax,0x1", None, "mov eax,0x0", "add rsp,%s" % hex(sub)] + ["pop " + r for r in reversed(pushed)] + ["ret"]
     if len(epi) != len(want) or any(w is not None and w != e for w, e in zip(want, epi)):
         raise Unsupported("epilogue: " + " ; ".join(epi))
     j = re.match(r"^jmp (0x[0-9a-f]+)$", epi[1])
